@@ -74,7 +74,7 @@ PublishStartLin(p, m, t, payload, meta, aft) ==
 Released(p) == \A s \in pub[p].sure : (sub[s].st = "reg" /\ pub[p].m \notin owed[s]) \/ Dying(s)
 PublishEndOk(p) ==
     /\ p \in DOMAIN pub /\ pub[p].phase = "lin"
-    /\ cfg.blocking => Released(p)
+    /\ (cfg.blocking => Released(p)) = TRUE
     /\ pub' = Drop(pub, p)
     /\ UNCHANGED <<cfg, closed, sub, owed, infl, log, msgs, subcall, closers>>
 \* an error is returned only by a call that saw the Pub/Sub closed, and then nothing was published
@@ -131,7 +131,7 @@ BatchOrdered(m) == cfg.blocking =>
 Recv(s, m) ==
     /\ s \in DOMAIN sub /\ ~sub[s].chclosed
     /\ m \in owed[s] /\ m \notin infl[s]
-    /\ BatchOrdered(m)
+    /\ BatchOrdered(m) = TRUE
     /\ ~Dying(s) => infl[s] = {}
     /\ infl' = [infl EXCEPT ![s] = @ \cup {m}]
     /\ UNCHANGED <<cfg, closed, sub, owed, log, pub, msgs, subcall, closers>>
